@@ -498,7 +498,12 @@ func (g *pGen) fillers(f *pFile, ind string, max int) {
 				for i := 0; i < k; i++ {
 					f.add("string line")
 				}
-				f.add("end`")
+				// the closing back-quote on a line of its own (the body ends in a newline), or after text
+				if g.r.Bool() {
+					f.add("`")
+				} else {
+					f.add("end`")
+				}
 			}
 			continue
 		}
@@ -913,6 +918,8 @@ func posFileStartProgs() []*pProg {
 			Expected: []pEntry{{"(main)", 1}, {"mb", 1}}, Shape: []string{"file-start"}},
 		{Files: map[string]string{"(main)": "f := import(\"ma\")\nf(0)\n", "ma": "return func(x) {\n  return [x][1]\n}\n", "mz": "return 0\n"},
 			Expected: []pEntry{{"(main)", 2}, {"ma", 2}}, Shape: []string{"file-start"}},
+		{Files: map[string]string{"(main)": "s := `first\nsecond\n`\nt := `\n`\nf := func(x) {\n  return 1 / x\n}\nf(0)\n"},
+			Expected: []pEntry{{"(main)", 9}, {"(main)", 7}}, Shape: []string{"raw-string-lines"}},
 		// a literal constant referenced on several lines: every reference keeps its own position
 		{Files: map[string]string{"(main)": "const k = 3\na := k + 1\nf := func(v) {\n  return k - v\n}\nb := k * 2\nf(\"s\")\n"},
 			Expected: []pEntry{{"(main)", 7}, {"(main)", 4}}, Shape: []string{"const-refs"}},
